@@ -167,9 +167,24 @@ def _init_worker(initializer, initargs):
         initializer(*initargs)
 
 
+class _Guarded:
+    """fn, followed by the check that the harness's own observation code did not fail while fn ran"""
+
+    def __init__(self, fn):
+        self.fn = fn
+
+    def __call__(self, x):
+        from . import runner
+
+        out = self.fn(x)
+        runner.check_harness()
+        return out
+
+
 def pmap(fn, items, *, initializer=None, initargs=(), chunksize=None, procs=None):
     """Parallel map preserving order. fn must be a top-level function."""
     items = list(items)
+    fn = _Guarded(fn)
     procs = procs or NCPU
     if len(items) == 0:
         return []
